@@ -247,11 +247,33 @@ def run(tier, out, replay=None):
         out.set("forms_checked", len(recs))
         out.add("traces_validated_against_impl", len(recs))
         out.sample(describe(scens[0]))
-        rf = os.path.join(wd, "recs.ndjson")
-        common.write_ndjson(rf, recs)
-        r = run_tlc("CheckCompose", "CheckCompose.cfg", env={"QV_RECS": rf}, cont=True, timeout=3400, name="checkcompose")
-        out.add("states", r.distinct)
-        out.add("transitions", r.generated)
+        # one TLC run per ~12 MB of records: TLC keeps the whole deserialised file as values in memory and crawls beyond that
+        chunks, cur, size = [], [], 0
+        for q, rc in enumerate(recs):
+            cur.append(q)
+            size += len(json.dumps(rc))
+            if size > 12_000_000:
+                chunks.append(cur)
+                cur, size = [], 0
+        if cur or not chunks:
+            chunks.append(cur)
+        all_viol, violated_names, tail = [], [], ""
+        for ci, chunk in enumerate(chunks):
+            rf = os.path.join(wd, "recs_%d.ndjson" % ci)
+            common.write_ndjson(rf, [recs[q] for q in chunk])
+            r = run_tlc("CheckCompose", "CheckCompose.cfg", env={"QV_RECS": rf}, cont=True, timeout=3400, name="checkcompose")
+            os.remove(rf)
+            out.add("states", r.distinct)
+            out.add("transitions", r.generated)
+            all_viol += [(v[1], chunk[int(v[2]) - 1] + 1) for v in r.viol_lines]
+            if r.violated and not r.viol_lines:
+                violated_names, tail = r.violated, r.stdout[-1500:]
+
+        class _R:
+            pass
+        r = _R()
+        r.viol_lines = [(None, cl, idx) for cl, idx in all_viol]
+        r.violated, r.stdout = violated_names, tail
         seen = set()
         for v in r.viol_lines:
             clause, idx = v[1].strip('"'), int(v[2])
